@@ -129,6 +129,9 @@ pub struct Oracles {
     pub raw_diff: bool,
     /// C20: every device offset inside the volume and equal to independent geometry
     pub offsets: bool,
+    /// C09: an injected storage error must come back as Error::Io carrying it
+    #[serde(default)]
+    pub io_errors: bool,
 }
 
 #[derive(Clone, Debug, Serialize, Deserialize)]
@@ -184,6 +187,9 @@ pub struct Step {
     /// inject a hard error at the k-th device call of this op
     #[serde(default, skip_serializing_if = "Option::is_none")]
     pub hard_at: Option<u64>,
+    /// the device stays dead after the injected error (every later call of the step fails too)
+    #[serde(default, skip_serializing_if = "std::ops::Not::not")]
+    pub sticky: bool,
 }
 
 #[derive(Clone, Debug, Serialize, Deserialize)]
